@@ -245,6 +245,13 @@ class SequentialCB(Evaluator):
             if out_prob and should_pred and on_pr is not None:
                 out['probability'] = on_pr
 
+            if batched:
+                #Unbatch (see evaluate) only splits values that are marked as batches
+                for k in ['action','probability','rewards']:
+                    if k in out and not is_batch(out[k]): out[k] = Batch.List(out[k])
+                for k in ['predict_time','learn_time','ope_loss']:
+                    if k in out: out[k] = Batch.List([out[k]]*n_rows)
+
             out.update({k: interaction[k] for k in interaction.keys()-SequentialCB._IMPLICIT_EXCLUDE})
 
             if info:
